@@ -3,6 +3,7 @@ import Driver.Geom
 import Driver.Eval
 import Driver.Decision
 import Driver.Reduce
+import Driver.Lineage
 /-
   oxidriver: line protocol over the executable model.
   One request per line: `<op> <arg> ...`; one answer line per request.
@@ -10,7 +11,7 @@ import Driver.Reduce
 -/
 namespace Driver
 
-def handlers : List (List String → Option String) := [handleFilters, handleGeom, handleEval, handleDecision, handleReduce]
+def handlers : List (List String → Option String) := [handleFilters, handleGeom, handleEval, handleDecision, handleReduce, handleLineage]
 
 def handle (args : List String) : String :=
   match handlers.findSome? (fun h => h args) with
